@@ -5,8 +5,10 @@ CONSTANTS
   Pubs = {"p1"}
   MaxBurst = 2
   MaxMsgs = 6
-  Depth = 10
-  Focus = TRUE
+  Depth = 8
+  Mode = "churn"
+  Aware = FALSE
+  Holds = {FALSE}
 INVARIANT Inv
 VIEW view
 ACTION_CONSTRAINT EmitEdge
